@@ -1,6 +1,9 @@
 (** Proofs about the relay model (C01). *)
-From Gnmi Require Import Base.Prelude CTree.CTreeModel Pipeline.PipelineModel.
+From Gnmi Require Import Base.Prelude CTree.CTreeModel CTree.CTreeProofs CTree.CTreeTheorems
+  Pipeline.PipelineModel.
 Open Scope Z_scope.
+
+(** * Collector glue *)
 
 (** the collector's Update closure always names the configured target and a
     non-empty origin *)
@@ -11,4 +14,156 @@ Proof.
   - eexists; split; [reflexivity|]. cbn. split; [reflexivity|].
     unfold str_nonempty. destruct (String.eqb_spec (g_origin p) ""); cbn; [discriminate|assumption].
   - eexists; split; [reflexivity|]. cbn. split; [reflexivity|discriminate].
+Qed.
+
+Lemma validate_In c name t :
+  validate c = true -> In (name, t) (cf_targets c) ->
+  name <> "" /\ t_addresses t <> [] /\ exists r, assoc (t_request t) (cf_requests c) = Some r.
+Proof.
+  unfold validate. rewrite forallb_forall. intros H Hin. specialize (H _ Hin). cbn in H.
+  rewrite !andb_true_iff in H. destruct H as [[[H1 H2] _] H4].
+  split; [|split].
+  - unfold str_nonempty in H1. destruct (String.eqb_spec name ""); cbn in H1; congruence.
+  - destruct (t_addresses t); cbn in H2; congruence.
+  - destruct (assoc (t_request t) (cf_requests c)) as [r|]; [eauto|discriminate].
+Qed.
+
+(** collector_start registers every configured target, with the target
+    manager (carrying its own request, customised with its name) and with the
+    cache; an invalid configuration serves nothing *)
+Lemma collector_start_spec c :
+  match collector_start c with
+  | Some (managed, cached) =>
+      validate c = true /\
+      keys managed = keys (cf_targets c) /\ cached = keys (cf_targets c) /\
+      forall name t, In (name, t) (cf_targets c) ->
+        exists r, assoc (t_request t) (cf_requests c) = Some r /\ In (name, customize name r) managed
+  | None => validate c = false
+  end.
+Proof.
+  unfold collector_start. destruct (validate c) eqn:Hv; [|reflexivity].
+  unfold defect_C01_1. cbn [negb].
+  assert (Hk : forall l, (forall name t, In (name, t) l -> In (name, t) (cf_targets c)) ->
+    keys (flat_map (fun nt => match assoc (t_request (snd nt)) (cf_requests c) with
+                              | Some r => [(fst nt, customize (fst nt) r)] | None => [] end) l) = keys l).
+  { induction l as [|[n t] l IH]; cbn; intros Hl; [reflexivity|].
+    destruct (validate_In c n t Hv (Hl n t (or_introl eq_refl))) as (_ & _ & r & Hr).
+    rewrite Hr. cbn. f_equal. apply IH. intros; apply Hl; now right. }
+  split; [reflexivity|]. rewrite Hk by auto. split; [reflexivity|]. split; [reflexivity|].
+  intros name t Hin. destruct (validate_In c name t Hv Hin) as (_ & _ & r & Hr).
+  exists r. split; [assumption|]. apply in_flat_map. exists (name, t). split; [assumption|].
+  cbn. rewrite Hr. now left.
+Qed.
+
+(** * gnmi_cli: the three invocation styles build the same request *)
+
+Section CliEquiv.
+Variable parse : string -> option cli_req.
+Variable files : string -> option string.
+
+Lemma str_nonempty_true s : s <> "" -> str_nonempty s = true.
+Proof. unfold str_nonempty. destruct (String.eqb_spec s ""); cbn; congruence. Qed.
+
+Lemma cli_equivalent tgt qs qt m txt fname r :
+  query_type qt = Some m -> qs <> [] -> existsb has_bracket qs = false ->
+  r = {| cr_mode := m; cr_target := tgt;
+         cr_paths := map (fun s => query_to_path (parse_query s)) qs |} ->
+  txt <> "" -> fname <> "" -> parse txt = Some r -> files fname = Some txt ->
+  cli_request parse files
+    {| a_target := tgt; a_queries := qs; a_qtype := qt; a_proto := ""; a_proto_file := "" |} = CliReq r
+  /\ cli_request parse files
+    {| a_target := ""; a_queries := []; a_qtype := qt; a_proto := txt; a_proto_file := "" |} = CliReq r
+  /\ cli_request parse files
+    {| a_target := ""; a_queries := []; a_qtype := qt; a_proto := ""; a_proto_file := fname |} = CliReq r.
+Proof.
+  intros Hqt Hqs Hb -> Htxt Hf Hp Hfile. unfold cli_request, proto_request_from_flags, defect_C01_2. cbn.
+  rewrite Hqt. split; [|split].
+  - destruct qs as [|q0 qs']; [congruence|]. cbn in Hb |- *. rewrite Hb. reflexivity.
+  - rewrite (str_nonempty_true txt Htxt). now rewrite Hp.
+  - rewrite (str_nonempty_true fname Hf). rewrite Hfile. rewrite (str_nonempty_true txt Htxt). now rewrite Hp.
+Qed.
+End CliEquiv.
+
+Example cli_equivalent_example :
+  let r := {| cr_mode := MOnce; cr_target := "dev1"; cr_paths := [["a"; "b"]] |} in
+  let parse := fun s => if String.eqb s "subscribe:{...}" then Some r else None in
+  let files := fun f => if String.eqb f "req.txt" then Some "subscribe:{...}" else None in
+  cli_request parse files
+    {| a_target := "dev1"; a_queries := ["/a/b"]; a_qtype := "once"; a_proto := ""; a_proto_file := "" |} = CliReq r
+  /\ cli_request parse files
+    {| a_target := ""; a_queries := []; a_qtype := "once"; a_proto := ""; a_proto_file := "req.txt" |} = CliReq r.
+Proof. vm_compute. split; reflexivity. Qed.
+
+(** * Pure facts used by the relay proof *)
+
+Lemma qmatch_glob_free d : glob_free d = true -> forall k, qmatch d k = is_prefix d k.
+Proof.
+  induction d as [|a d IH]; intros Hg k; [reflexivity|].
+  cbn in Hg. apply andb_true_iff in Hg as [Ha Hd]. apply negb_true_iff in Ha.
+  cbn [qmatch is_prefix]. rewrite Ha. destruct k as [|b k]; [reflexivity|]. now rewrite IH.
+Qed.
+
+Lemma is_prefix_refl p : is_prefix p p = true.
+Proof. induction p; cbn; [reflexivity|]. now rewrite String.eqb_refl. Qed.
+
+Lemma is_prefix_strict_or_eq p q :
+  is_prefix p q = true -> p = q \/ strict_prefix p q = true.
+Proof.
+  intros H. unfold strict_prefix. rewrite H. destruct (path_eqb_spec p q); [now left|now right].
+Qed.
+
+Lemma mmatch_prefix q p : is_prefix q p = true -> mmatch q p = true.
+Proof.
+  revert p; induction q as [|a q IH]; intros [|b p]; cbn; try reflexivity; try discriminate.
+  intros H. apply andb_true_iff in H as [H1 H2]. rewrite H1, (IH _ H2). now rewrite !orb_true_r.
+Qed.
+
+Lemma mmatch_glob_free q p :
+  glob_free q = true -> glob_free p = true -> mmatch q p = true ->
+  is_prefix q p = true \/ is_prefix p q = true.
+Proof.
+  revert p; induction q as [|a q IH]; intros [|b p] Hq Hp; cbn; auto.
+  cbn in Hq, Hp. apply andb_true_iff in Hq as [Ha Hq]. apply andb_true_iff in Hp as [Hb Hp].
+  apply negb_true_iff in Ha. apply negb_true_iff in Hb. rewrite Ha, Hb. cbn.
+  intros H. apply andb_true_iff in H as [H1 H2]. rewrite H1. cbn.
+  apply String.eqb_eq in H1. subst. rewrite String.eqb_refl. cbn. now apply IH.
+Qed.
+
+Lemma mmatch_other_head a q b p :
+  is_glob a = false -> is_glob b = false -> a <> b -> mmatch (a :: q) (b :: p) = false.
+Proof.
+  intros Ha Hb Hn. cbn. rewrite Ha, Hb. cbn. destruct (String.eqb_spec a b); [contradiction|reflexivity].
+Qed.
+
+(** structural equality of values *)
+Lemma tv_ind' (P : tv -> Prop) :
+  (forall s, P (TVString s)) -> (forall z, P (TVInt z)) -> (forall z, P (TVUint z)) ->
+  (forall b, P (TVBool b)) -> (forall s, P (TVBytes s)) -> (forall b, P (TVFloat b)) ->
+  (forall b, P (TVDouble b)) -> (forall d p, P (TVDecimal d p)) ->
+  (forall l, Forall P l -> P (TVLeaflist l)) ->
+  (forall s, P (TVJson s)) -> (forall s, P (TVJsonIetf s)) -> (forall s, P (TVAny s)) ->
+  (forall s, P (TVAscii s)) -> (forall s, P (TVProto s)) -> forall v, P v.
+Proof.
+  intros H0 H1 H2 H3 H4 H5 H6 H7 H8 H9 H10 H11 H12 H13. fix IH 1.
+  intros [s|z|z|b|s|b|b|d p|l|s|s|s|s|s];
+    [apply H0|apply H1|apply H2|apply H3|apply H4|apply H5|apply H6|apply H7| |apply H9|apply H10
+    |apply H11|apply H12|apply H13].
+  apply H8. induction l as [|x l IHl]; constructor; [apply IH|apply IHl].
+Qed.
+
+Lemma tv_eqb_eq a : forall b, tv_eqb a b = true -> a = b.
+Proof.
+  induction a using tv_ind'; intros [ ] Hb; cbn in Hb; try discriminate;
+    try (apply String.eqb_eq in Hb; congruence);
+    try (apply Z.eqb_eq in Hb; congruence);
+    try (apply Bool.eqb_prop in Hb; congruence).
+  - apply andb_true_iff in Hb as [H1 H2]. apply Z.eqb_eq in H1, H2. congruence.
+  - f_equal. revert l0 Hb. induction H as [|x l Hx Hl IH]; intros [|y l'] Hb; try discriminate; [reflexivity|].
+    apply andb_true_iff in Hb as [H1 H2]. f_equal; [now apply Hx|now apply IH].
+Qed.
+
+Lemma leafrec_eqb_val a b : leafrec_eqb a b = true -> lr_ts a = lr_ts b /\ lr_val a = lr_val b.
+Proof.
+  unfold leafrec_eqb. rewrite !andb_true_iff. intros [[[H1 _] _] H4].
+  apply Z.eqb_eq in H1. split; [assumption|now apply tv_eqb_eq].
 Qed.
